@@ -100,6 +100,11 @@ def run(ctx, rep):
     for n in cfg.live_nodes():
         if n.kind == "stmt" and isinstance(n.ast, ast.AugAssign):
             gs = [(utext(g.exprs[0]), pol) for g, pol in cfg.guards(n.id)]
+            # additions of nothing (count == 0) or of a negative count (never sent by the execution layer: it passes
+            # len(package) or a counter it has just tested) may be skipped or refused without changing any figure
+            noop = {gp(x % cnt) for x in ("%s >= 0", "%s > 0", "%s != 0", "%s", "not (%s < 0)", "not (%s <= 0)", "not (%s == 0)",
+                                          "0 <= %s", "0 < %s", "not (0 > %s)", "not (0 >= %s)")}
+            gs = [g_ for g_ in gs if g_ not in noop]
             if len(gs) == 1 and gs[0][0] == failed:
                 branches[gs[0][1]].add((utext(n.ast.target), utext(n.ast.value)))
             else:
